@@ -253,8 +253,8 @@ package types
 
 //@ func (*VoteSet).AddVote
 //@   props C15 C08
-//@   requires voteSet != nil ==> wfVoteSet(voteSet) && majInv(voteSet)
 //@   requires vote != nil
+//@   invariant-assumed voteSet != nil ==> wfVoteSet(voteSet) && majInv(voteSet)
 //@   aborts when voteSet == nil
 //@   assigns  voteSet.votes[*], voteSet.votesBitArray.Elems[*], voteSet.votesBitArray.mtx.*, voteSet.sum, voteSet.maj23, voteSet.votesByBlock[*], voteSet.valSet.totalVotingPower, voteSet.mtx.*, \
 //@            voteSet.votesByBlock[keyOf(vote.BlockID)].votes[*], voteSet.votesByBlock[keyOf(vote.BlockID)].sum, voteSet.votesByBlock[keyOf(vote.BlockID)].bitArray.Elems[*], voteSet.votesByBlock[keyOf(vote.BlockID)].bitArray.mtx.*
@@ -281,19 +281,21 @@ package types
 //@ func (*VoteSet).HasTwoThirdsAny
 //@   noalloc
 //@   props C15 C04
-//@   requires voteSet != nil ==> wfVoteSet(voteSet)
+//@   invariant-assumed voteSet != nil ==> wfVoteSet(voteSet)
 //@   assigns  voteSet.mtx.*, voteSet.valSet.totalVotingPower
 //@   ensures  result == (voteSet != nil && voteSet.sum > totalPower(voteSet.valSet)*2/3)
 
 //@ func (*VoteSet).HasAll
 //@   props C15
-//@   requires wfVoteSet(voteSet)
+//@   requires voteSet != nil
+//@   invariant-assumed wfVoteSet(voteSet)
 //@   assigns  voteSet.valSet.totalVotingPower
 //@   ensures  result == (voteSet.sum == totalPower(voteSet.valSet))
 
 //@ func (*VoteSet).MakeCommit
 //@   props C15 C02 C01
-//@   requires wfVoteSet(voteSet)
+//@   requires voteSet != nil
+//@   invariant-assumed wfVoteSet(voteSet)
 //@   aborts when voteSet.type_ != VoteTypePrecommit || voteSet.maj23 == nil
 //@   assigns  voteSet.mtx.*
 //@   ensures  [commit-for-majority] result != nil && fresh(result) && result.BlockID == *voteSet.maj23
@@ -341,7 +343,8 @@ package types
 
 //@ func (*ValidatorSet).VerifyCommit
 //@   props C15 C02 C13 C01
-//@   requires wfValSet(valSet) && commit != nil
+//@   requires valSet != nil && commit != nil
+//@   invariant-assumed wfValSet(valSet)
 //@   defines  tally(0) == 0 && forall(k, Int, trigger(tally(k+1)), k >= 0 ==> tally(k+1) == tally(k) + ite(goodPrecommit(valSet, chainID, blockID, height, commit, k), powerAt(valSet, k), 0))
 //@   assigns  commit.firstPrecommit, valSet.totalVotingPower
 //@   ensures  [commit-size] result == nil ==> len(commit.Precommits) == len(valSet.Validators)
@@ -434,7 +437,8 @@ package types
 
 //@ func (*ValidatorSet).GetByAddress
 //@   props C14 C16
-//@   requires wfValSet(valSet)
+//@   requires valSet != nil
+//@   invariant-assumed wfValSet(valSet)
 //@   assigns  nothing
 //@   ensures  [found-is-the-validator] val != nil ==> 0 <= index && index < len(valSet.Validators) && bytesEq(valSet.Validators[index].Address, address) && fresh(val) \
 //@              && val.VotingPower == valSet.Validators[index].VotingPower && val.PubKey == valSet.Validators[index].PubKey && val.Address == valSet.Validators[index].Address && val.IsCA == valSet.Validators[index].IsCA
@@ -442,7 +446,8 @@ package types
 
 //@ func (*ValidatorSet).HasAddress
 //@   props C14 C16 C02
-//@   requires wfValSet(valSet)
+//@   requires valSet != nil
+//@   invariant-assumed wfValSet(valSet)
 //@   pure
 //@   ensures  [has-means-member] result ==> exists(j, 0, len(valSet.Validators), bytesEq(valSet.Validators[j].Address, address))
 //@   trusted-ensures !result ==> forall(j, 0, len(valSet.Validators), !bytesEq(valSet.Validators[j].Address, address))
